@@ -28,3 +28,15 @@ func VerifSyncStep(c *Client, tokens ...bool) {
 }
 
 func VerifPipelined(c *Client) int { return c.syncPipelinedRequestNext }
+
+// VerifStartSync puts the client in the state Sync() leaves it in after the intersect was
+// found: ready channel of capacity PipelineLimit (Start), one initial RequestNext queued, no
+// pipelined requests counted.
+func VerifStartSync(c *Client) error {
+	c.readyForNextBlockChan = make(chan bool, c.config.PipelineLimit)
+	c.syncPipelinedRequestNext = 0
+	return c.SendMessage(NewMsgRequestNext())
+}
+
+func VerifSyncLoop(c *Client)                                { c.syncLoop() }
+func VerifClientHandle(c *Client, msg protocol.Message) error { return c.messageHandler(msg) }
